@@ -45,6 +45,17 @@ Theorem c31_no_leak : forall strict max n evs s,
 Proof. exact no_leak. Qed.
 Print Assumptions c31_no_leak.
 
+(* The caller cancelling a query that is waiting for a slot is not a step of the limit: it is possible
+   exactly for a Waiting query and leaves phases and counter as they are (the query neither takes nor
+   gives back a slot; it is still answered by the timeout, or served, like any waiting query).  All
+   theorems here quantify over traces that may contain this event anywhere. *)
+Theorem c31_cancel_wait_neutral : forall strict max s q,
+  (forall s1, sem_step strict max s (ECancelWait q) = Some s1 ->
+              nth_error (phases s) q = Some Waiting /\ s1 = s) /\
+  (nth_error (phases s) q = Some Waiting -> sem_step strict max s (ECancelWait q) = Some s).
+Proof. intros; split; [apply cancel_wait_neutral | apply cancel_wait_enabled]. Qed.
+Print Assumptions c31_cancel_wait_neutral.
+
 (* ... and a released slot is usable: once everything else has ended, a fresh query acquires. *)
 Theorem c31_slot_reusable : forall strict max n evs s q,
   0 < max -> run_trace strict max (init n) evs = Some s ->
@@ -64,10 +75,10 @@ Print Assumptions c31_script_sound.
 
 (* ---- non-vacuity ------------------------------------------------------------------------ *)
 
-(* max = 1, four queries: 0 holds, 1 is rejected while 0 holds, 2 fails in Prepare, 0 panics,
-   3 acquires the freed slot and is cancelled *)
+(* max = 1, four queries: 0 holds, 1 is cancelled by its caller while it waits and is then rejected
+   while 0 holds, 2 fails in Prepare, 0 panics, 3 acquires the freed slot and is cancelled *)
 Definition ex_trace : list event :=
-  [EStart 0 true; EStart 1 true; EAcquire 0; ETimeout 1; EStart 2 false; EExit 0 OPanic;
+  [EStart 0 true; EStart 1 true; EAcquire 0; ECancelWait 1; ETimeout 1; EStart 2 false; EExit 0 OPanic;
    EStart 3 true; EAcquire 3; EExit 3 OCancelled].
 
 Example c31_bounded_example :
@@ -82,7 +93,7 @@ Example c31_rejected_example :
 Proof. eexists; split; [vm_compute; reflexivity|]. vm_compute. intuition. Qed.
 
 Example c31_rejected_only_when_full_example :
-  exists s, run_trace true 1 (init 4) ([EStart 0 true; EStart 1 true; EAcquire 0] ++ ETimeout 1 :: skipn 4 ex_trace) = Some s.
+  exists s, run_trace true 1 (init 4) ([EStart 0 true; EStart 1 true; EAcquire 0; ECancelWait 1] ++ ETimeout 1 :: skipn 5 ex_trace) = Some s.
 Proof. eexists; vm_compute; reflexivity. Qed.
 
 (* the guard really excludes something: a timeout with a free slot is not a strict step *)
@@ -104,6 +115,18 @@ Example c31_slot_reusable_example :
   exists s, run_trace true 1 (init 5) ex_trace = Some s /\
             forallb is_done (upd (phases s) 4 (Done OOk)) = true /\ nth_error (phases s) 4 = Some Idle.
 Proof. eexists; split; [vm_compute; reflexivity|]. vm_compute. auto. Qed.
+
+Example c31_cancel_wait_neutral_example :
+  exists s, run_trace true 1 (init 4) (firstn 3 ex_trace) = Some s /\ nth_error (phases s) 1 = Some Waiting /\
+            sem_step true 1 s (ECancelWait 1) = Some s /\ sem_step true 1 s (ECancelWait 0) = None.
+Proof. eexists; split; [vm_compute; reflexivity|]. vm_compute. auto. Qed.
+
+Example c31_script_cancel_wait_example :
+  script_events 1 [OpSpawn 0 (KRun true XOk) false; OpSpawn 1 (KRun false XOk) true; OpCancelWait 1;
+                   OpSpawn 2 (KRun false XOk) false; OpFinish 0]
+  = Some [EStart 0 true; EAcquire 0; EStart 1 true; ECancelWait 1; ETimeout 1; EStart 2 true; ETimeout 2;
+          EExit 0 OOk].
+Proof. vm_compute. reflexivity. Qed.
 
 Example c31_script_sound_example :
   script_events 1 [OpSpawn 0 (KRun true XPanic) true; OpSpawn 1 (KRun false XErr) false;
